@@ -92,7 +92,29 @@ def gen_package(rng, pkg, shapes):
             {"name": "z", "type": {"t": "integer"}, "required": False}]}})
         root["def"]["fields"].append({"name": "origin", "type": {"t": "ref", "to": "Point", "default": {"x": 1, "y": 2, "z": 3}},
                                       "required": False})
+    link_unreferenced(defs)
     return defs
+
+
+def refs_in(t, out):
+    if t["t"] == "ref":
+        out.add(t["to"])
+    elif t["t"] == "oneof":
+        out.update(t["refs"])
+    elif t["t"] in ("array", "map"):
+        refs_in(t["of"], out)
+
+
+def link_unreferenced(defs):
+    """the parsers only keep definitions reachable from the root: reference every other one from it"""
+    root = defs[0]
+    seen = set()
+    for d in defs:
+        for f in d["def"]["fields"]:
+            refs_in(f["type"], seen)
+    for d in defs[1:]:
+        if d["name"] not in seen:
+            root["def"]["fields"].append({"name": "ref" + d["name"], "type": {"t": "ref", "to": d["name"]}, "required": False})
 
 
 def gen_spec(rng, langs=None, npkgs=None, shapes=None, flags=None):
@@ -175,6 +197,7 @@ def gen_spec(rng, langs=None, npkgs=None, shapes=None, flags=None):
         # the same definition name (different content) in two different packages
         for inp in inputs[:2]:
             inp["defs"].append({"name": "Common", "def": gen_struct(rng, [], 2)})
+            link_unreferenced(inp["defs"])
     return spec
 
 
